@@ -296,6 +296,19 @@ def check_epochs(ld, n, failing, plan, with_key, res, where='below'):
     except BaseException as e:
         res.violation('listed-exception-propagated', case, exc_sig(e), sig=sig)
         return
+    # two iterations of the one catching dataset in flight (each works on its
+    # own frozen order): start one, take an example, run a second one to its
+    # end, finish the first
+    try:
+        it1 = iter(src_())
+        first = [x for x in [next(it1, None)] if x is not None]
+        second = list(src_())
+        first += list(it1)
+        outs += [sorted(first), sorted(second)]
+    except BaseException as e:
+        res.violation('listed-exception-propagated', {**case, 'two_iterators': True},
+                      exc_sig(e), sig=sig)
+        return
     res.count('catch_epochs_over_reshuffled_upstream', len(outs))
     for ep, got in enumerate(outs):
         if got != want:
